@@ -65,6 +65,12 @@ STATIC = [
         d("ARG9?", "a9", list(reversed(PARAM_TYPES))[:9]), d("STR", "s2", ["&str", "&str"]), d("BLK?", "b2", ["&[u8]", "u8", "&[u8]"])]},
     {"mod": "s14_ret", "flags": [], "decls": [d("R%d?" % i, "r%d" % i, ret=t) for i, t in enumerate(sorted(RET)) if t != "()"]
         + [d("RU", "ru", ret="()"), d("RQU?", "rqu", ret="()")]},
+    # impl blocks that also hold items without #[scpi] (constructors, helpers, constants) before, between and after the
+    # handlers: the identity of a command must not depend on them
+    {"mod": "s15_helpers", "flags": ["StandardCommands", "ErrorCommands"], "helpers": {0: 2, 1: 1, 3: 1},
+     "decls": [d("CONFigure:RANGe", "range", ["u8"]), d("CONFigure:RANGe?", "rangeq"), d("MEASure?", "meas", ret="f32"), d("*WAI", "wai")]},
+    {"mod": "s16_helpers_std", "flags": ["StandardCommands"], "helpers": {0: 3, 2: 2}, "decls": [d("A:B", "ab"), d("A:B?", "abq")]},
+    {"mod": "s17_helpers_err", "flags": ["ErrorCommands"], "helpers": {0: 1, 1: 4}, "decls": [d("X", "x"), d("Y?", "yq"), d("[Z]:W", "zw")]},
 ]
 
 UPPER = "ABCDEFGHIJKLMNOPQRSTUVWXYZ"
@@ -184,7 +190,11 @@ def generate(seed, count):
             params = [rng.choice(PARAM_TYPES) for _ in range(nparams)]
             ret = rng.choice(["u8", "f64", "bool", "&'static str", "(u8, f32)", "i32"]) if cmd.endswith("?") else "()"
             decls.append(d(cmd, "h%d" % len(decls), params, ret, rng.random() < 0.7))
-        specs.append({"mod": "g%03d" % i, "flags": flags, "decls": decls})
+        sp = {"mod": "g%03d" % i, "flags": flags, "decls": decls}
+        hr = random.Random(seed * 1000003 + i)
+        if hr.random() < 0.35:
+            sp["helpers"] = {k: hr.randint(1, 2) for k in range(len(decls) + 1) if hr.random() < 0.4}
+        specs.append(sp)
     return specs
 
 
@@ -207,11 +217,24 @@ def render(spec):
         out.append("    impl%s StandardCommands for %s {}" % (ig, ty))
     out.append("    #[scpi::interface(%s)]" % ", ".join(spec["flags"]))
     out.append("    impl%s %s {" % (ig, ty))
-    for dcl in spec["decls"]:
+    helpers = spec.get("helpers") or {}
+    nh = 0
+
+    def emit_helpers(k):
+        nonlocal nh
+        for _ in range(helpers.get(k, 0)):
+            if nh % 3 == 2:
+                out.append("        pub const LIMIT_%d: u8 = %d;" % (nh, nh))
+            else:
+                out.append("        pub fn helper_%d(&self) -> u8 { %d }" % (nh, nh))
+            nh += 1
+    for k, dcl in enumerate(spec["decls"]):
+        emit_helpers(k)
         params = "".join(", p%d: %s" % (i, t) for i, t in enumerate(dcl["params"]))
         out.append("        #[scpi(cmd = \"%s\")]" % dcl["cmd"])
         out.append("        pub %sfn %s(&mut self%s) -> Result<%s, scpi::Error> { Ok(%s) }"
                    % ("async " if dcl["async"] else "", dcl["fn"], params, dcl["ret"], RET[dcl["ret"]]))
+    emit_helpers(len(spec["decls"]))
     out.append("    }")
     out.append("}")
     return "\n".join(out)
